@@ -127,7 +127,28 @@ def install(metrics=False):
     TARGET_FILES[B.__file__] = "cf/_base.py"
     TARGET_FILES[T.__file__] = "cf/thread.py"
     _scan_unknown_real_primitives()
+    _hook_local_imports()
     _installed = True
+
+
+def _hook_local_imports():
+    """`import threading` / `from time import sleep` executed *inside a function* of the library
+    (or at the top of a library module imported later) bypasses the module-global rebinding
+    above; give such imports the same shims.  Only imports issued from more_executors modules
+    are affected."""
+    import builtins
+    orig = builtins.__import__
+    shims = {"threading": core.threading_shim, "time": core.time_shim, "queue": core.queue_shim}
+
+    def _import(name, globals=None, locals=None, fromlist=(), level=0):
+        m = orig(name, globals, locals, fromlist, level)
+        if level == 0 and name in shims and globals is not None:
+            n = globals.get("__name__") or ""
+            if n == "more_executors" or n.startswith("more_executors."):
+                return shims[name]
+        return m
+
+    builtins.__import__ = _import
 
 
 _REAL_TYPES = (type(_thread.allocate_lock()), type(_rt.RLock()), _rt.Event, _rt.Condition,
